@@ -330,8 +330,67 @@ fn edge_grid() -> Vec<Case> {
     v
 }
 
+/// Several calls in a row on the same thread over a small pool of base times and the
+/// vouchers that belong to them: each call is judged on its own, whatever came before
+/// (a verdict must not depend on earlier calls: no memo of "this base / this voucher was fine").
+#[derive(Clone, Debug, PartialEq, Eq, Hash, Serialize, Deserialize)]
+pub struct SeqCase {
+    pub local_ms: i64,
+    /// Base times, as differences from the local time.
+    pub pool: Vec<i64>,
+    /// (index into the pool for the base, index into the pool for the voucher's base, sub-millisecond part).
+    pub calls: Vec<(u8, u8, u32)>,
+}
+
+pub fn check_seq(case: &SeqCase) -> CaseResult {
+    if case.pool.is_empty() {
+        return Ok(Outcome::new(false));
+    }
+    let base_of = |i: u8| -> u64 { (case.local_ms as i128 - case.pool[i as usize % case.pool.len()] as i128).clamp(0, u64::MAX as i128) as u64 };
+    let mut crossed = 0usize;
+    let mut accepted_then_crossed = false;
+    let mut accepted_before = false;
+    for (k, (bi, vi, lo)) in case.calls.iter().enumerate() {
+        let base = base_of(*bi);
+        let vbase = base_of(*vi);
+        let single = Case {
+            local_ns_hi: case.local_ms,
+            local_ns_lo: *lo,
+            base: Base::Abs(base),
+            voucher: VoucherKind::ForOtherValue(vbase.wrapping_sub(base) as i64),
+        };
+        check_case(&single).map_err(|f| Fail::new(f.sig, format!("call #{k} of a sequence (earlier calls: {:?}): {}", &case.calls[..k], f.msg)))?;
+        if base != vbase {
+            crossed += 1;
+            accepted_then_crossed |= accepted_before;
+        } else {
+            accepted_before = true;
+        }
+    }
+    Ok(Outcome::new(accepted_then_crossed).label_if(crossed > 0, "voucher_of_another_pool_member").label_if(accepted_then_crossed, "mismatch_after_a_match"))
+}
+
+fn seq_strategy() -> impl Strategy<Value = SeqCase> {
+    (
+        prop_oneof![3 => 1_600_000_000_000i64..1_900_000_000_000, 1 => 100_000i64..10_000_000],
+        proptest::collection::vec(prop_oneof![4 => -59_900i64..=2_990, 1 => -70_000i64..10_000, 1 => Just(0i64)], 1..4),
+        proptest::collection::vec((0u8..3, 0u8..3, prop_oneof![2 => Just(0u32), 1 => 0u32..1_000_000]), 2..8),
+    )
+        .prop_map(|(local_ms, pool, mut calls)| {
+            // Mostly the matching voucher.
+            for (k, c) in calls.iter_mut().enumerate() {
+                if k % 3 != 2 {
+                    c.1 = c.0;
+                }
+            }
+            SeqCase { local_ms, pool, calls }
+        })
+}
+
 pub fn run(ctx: &Ctx, rep: &mut Report) {
     engine::enumerate(ctx, rep, "edge-grid", edge_grid().into_iter(), check_case);
+    let cases = ctx.share(ctx.tier.pick(100_000, 4_000_000));
+    engine::drive(ctx, rep, "call-sequences", seq_strategy(), cases, check_seq);
     let cases = ctx.share(ctx.tier.pick(6_000_000, 160_000_000));
     engine::drive(ctx, rep, "random", case_strategy(), cases, check_case);
     let now_cases = (-59_903i64..=-59_897).chain(2_987..=2_993).chain([0, 100_000, -100_000]).flat_map(|diff| [true, false].map(move |voucher_ok| NowCase { diff, voucher_ok }));
@@ -339,7 +398,9 @@ pub fn run(ctx: &Ctx, rep: &mut Report) {
 }
 
 fn replay(_ctx: &Ctx, group: &str, case: &Value) -> CaseResult {
-    if group == "now" {
+    if group == "call-sequences" {
+        check_seq(&parse_case::<SeqCase>(case)?)
+    } else if group == "now" {
         check_now(&parse_case::<NowCase>(case)?)
     } else {
         check_case(&parse_case::<Case>(case)?)
@@ -349,7 +410,7 @@ fn replay(_ctx: &Ctx, group: &str, case: &Value) -> CaseResult {
 pub fn def() -> PropDef {
     PropDef {
         id: "C14",
-        rule: "A case is (local time, base time, voucher): the local time is milliseconds + a sub-millisecond part, drawn around the epoch (+-3 s, including negative), at both calendar limits (PrimitiveDateTime::MIN / MAX), in 2020..2030 and uniformly; the base time is floor(local ms) minus a difference around both window edges (-59903..-59897, 2987..2993), 0, random differences, k*2^p + w for p = 8..62, k = +-1..4 and w in or around the window (what a truncating cast would fold back into the window), or an absolute value near 0, near 2^64, near 2^63 or uniform; the voucher is the correct one, one for base+-1 / another value, one from the other parameter set found in the crate's tests, or random bits. Oracle in i128: accept iff raffle's checker (with the crate's CHECK string) accepts the voucher for the base, the local time is >= the epoch and -59900 <= floor(local ms) - base <= 2990; new never panics; check agrees with new; get_local_time returns the input. edge-grid enumerates the same edges at 16 anchor times x 4 sub-millisecond parts; now: now() with a provider that answers clock - diff for diffs around both edges must apply the same rule to the clock value handed to the provider. Non-trivial: difference within 2 ms of an edge, or base >= 2^63, or local time within 3 s of the epoch. Distinct: hash of the serialised case / by enumeration.",
+        rule: "A case is (local time, base time, voucher): the local time is milliseconds + a sub-millisecond part, drawn around the epoch (+-3 s, including negative), at both calendar limits (PrimitiveDateTime::MIN / MAX), in 2020..2030 and uniformly; the base time is floor(local ms) minus a difference around both window edges (-59903..-59897, 2987..2993), 0, random differences, k*2^p + w for p = 8..62, k = +-1..4 and w in or around the window (what a truncating cast would fold back into the window), or an absolute value near 0, near 2^64, near 2^63 or uniform; the voucher is the correct one, one for base+-1 / another value, one from the other parameter set found in the crate's tests, or random bits. Oracle in i128: accept iff raffle's checker (with the crate's CHECK string) accepts the voucher for the base, the local time is >= the epoch and -59900 <= floor(local ms) - base <= 2990; new never panics; check agrees with new; get_local_time returns the input. call-sequences: 2..7 calls in a row on one thread over a pool of 1..3 base times and the vouchers that belong to them (every third call may present the voucher of another pool member), each call judged on its own: a verdict must not depend on earlier calls. edge-grid enumerates the same edges at 16 anchor times x 4 sub-millisecond parts; now: now() with a provider that answers clock - diff for diffs around both edges must apply the same rule to the clock value handed to the provider. Non-trivial: difference within 2 ms of an edge, or base >= 2^63, or local time within 3 s of the epoch. Distinct: hash of the serialised case / by enumeration.",
         assumptions: &[
             "the millisecond of a local time is its floor, as the crate's constants document (they are 10 ms inside 3 s / 60 s 'to account for rounding, truncation, and off-by-ones')",
             "voucher validity is decided by the raffle crate with the CHECK parameter string quoted from vouched_time/src/lib.rs",
